@@ -1,6 +1,6 @@
 (* Properties/C03.v — Every eligible target ends up scraped by exactly one shard. *)
 From KV Require Import Base.Util Base.AMap Base.Sched Gen.Consts Model.Coordinator Model.CoordCheck Model.Sidecar Model.World
-                       Proofs.CoordBasics Proofs.CoordC01 Proofs.SidecarProofs Proofs.WorldProofs Proofs.CoordStable Proofs.WorldNoGap Proofs.CoordHandover.
+                       Proofs.CoordBasics Proofs.CoordC01 Proofs.SidecarProofs Proofs.WorldProofs Proofs.CoordStable Proofs.WorldNoGap Proofs.CoordHandover Proofs.CoordRipe.
 Local Open Scope list_scope.
 Local Open Scope Z_scope.
 
@@ -16,7 +16,9 @@ Local Open Scope Z_scope.
      (3) the cleaning step: with all counters at three, one cycle's garbage collection and recovery pass leave every held
          target on exactly one in-sync shard in normal state - duplicates on any number of shards, pending transfers with
          or without partner (C03_one_normal_copy_after_cleaning, C05_handover_completes and the C06 theorems);
-     (4) an eligible target that is held nowhere is placed, or the replica grows (C03_place_or_grow, below);
+     (4) an eligible target that is held nowhere is placed, or the replica grows (C03_place_or_grow, below); with no relief to
+         do, the plan after cleaning and assignment is clean: every entry a discovered target in normal state, no target
+         on two shards (C03_ripe_cycle_gives_clean_plan);
      (5) a settled placement is a fixpoint of the cycle and of the closed loop (C03_settled_is_fixpoint,
          C03_settled_world_unchanged).
    Not proved is the glue that turns (1)-(5) into a bound: that relief (shards above a threshold) and consolidation
@@ -126,6 +128,21 @@ Theorem C03_one_normal_copy_after_cleaning : forall o i s h,
 Proof. exact single_normal_after_gc_and_recovery. Qed.
 Print Assumptions C03_one_normal_copy_after_cleaning.
 
+(* ... for the whole planning part of the cycle: every shard in sync, every reported copy scraped three times, no relief to
+   do on the cleaned plan - then the plan after garbage collection, recovery and assignment is CLEAN: on every shard every
+   entry is a discovered target in normal state, and no target is on two shards (what assignment adds is only what nobody
+   holds, once).  Together with C03_place_or_grow (what is not placed makes the replica grow) and C03_settled_is_fixpoint
+   this is the step "ripe report -> converged placement" of the argument, for every schedule *)
+Theorem C03_ripe_cycle_gives_clean_plan : forall o i s,
+  (forall k, (k < length (i_shards i))%nat -> insync i k = true) ->
+  NoDupReports i -> NoDup (akeys (i_active i)) ->
+  (forall k h c, afind h (reported i k) = Some c -> (3 <= c_times c)%N) ->
+  (forall h c, afind h (i_explore i) = Some c -> c_state c = Normal) ->
+  calm o (st_p1 (run_stages o i s)) ->
+  clean (i_active i) (st_p3 (run_stages o i s)).
+Proof. exact ripe_cycle_gives_clean_plan. Qed.
+Print Assumptions C03_ripe_cycle_gives_clean_plan.
+
 (* ... and a round of scrapes is what makes every copy eligible for that step: n scrapes of everything a sidecar is
    assigned add n to every counter (failed scrapes count as well) and change no state *)
 Theorem C03_scrape_round_counts : forall tru n s h e, wf (ws_sc s) -> afind h (sc_status (ws_sc s)) = Some e ->
@@ -194,4 +211,38 @@ Proof.
   - intros h Hin. vm_compute in Hin. destruct Hin as [<-|[<-|[<-|[]]]]; [left; reflexivity|left; reflexivity|right; right; reflexivity].
   - reflexivity.
   - cbn. lia.
+Qed.
+
+(* non-vacuity of C03_ripe_cycle_gives_clean_plan: target 7 duplicated (shards 0 and 1), target 8 in a hand-over that is
+   complete (shard 0 in transfer, shard 1 normal), target 9 in transfer without partner (shard 2), target 10 held nowhere;
+   every copy scraped at least three times.  All hypotheses hold; afterwards: 7 on shard 0, 8 on shard 1, 9 normal on
+   shard 2, 10 placed once *)
+Definition rx_stat (st : tstate) (t : N) : cstat := {| c_state := st; c_health := Good; c_series := 10; c_total := 10; c_times := t |}.
+Definition rx_shard (tars : amap cstat) : shard_in :=
+  {| sh_ready := true; sh_status := Some tars;
+     sh_rt1 := Some {| r_head := 20; r_proc := 20; r_hash_ok := true; r_idle := None |};
+     sh_push_ok := true; sh_rt2 := None; sh_post_ok := true |}.
+Definition rx_o : opts := {| max_head := 0; max_proc := 100; max_shard := 4; min_shard := 1; max_idle := 0; disable_alleviate := false |}.
+Definition rx_i : input :=
+  {| i_shards := [rx_shard [(7%N, rx_stat Normal 5); (8%N, rx_stat InTransfer 4)];
+                  rx_shard [(7%N, rx_stat Normal 3); (8%N, rx_stat Normal 3)];
+                  rx_shard [(9%N, rx_stat InTransfer 3)]];
+     i_active := [(7%N, 0%N); (8%N, 0%N); (9%N, 0%N); (10%N, 0%N)];
+     i_explore := [(10%N, rx_stat Normal 0)]; i_scale1_ok := true |}.
+Example C03_ripe_example :
+  (forall k, (k < length (i_shards rx_i))%nat -> insync rx_i k = true) /\
+  (forall k h c, afind h (reported rx_i k) = Some c -> (3 <= c_times c)%N) /\
+  calm rx_o (st_p1 (run_stages rx_o rx_i (sst_of []))) /\
+  map (fun s => map (fun kv => (fst kv, c_state (snd kv))) (scr_of s)) (st_p3 (run_stages rx_o rx_i (sst_of []))) =
+  [[(7%N, Normal); (10%N, Normal)]; [(8%N, Normal)]; [(9%N, Normal)]].
+Proof.
+  split; [intros [|[|[|k]]] Hk; cbn in Hk; try lia; reflexivity|].
+  split.
+  - intros k h c Hf. destruct (Nat.lt_ge_cases k 3) as [Hk|Hk].
+    + destruct k as [|[|[|k]]]; [| | |lia]; vm_compute in Hf;
+        repeat match type of Hf with (if ?b then _ else _) = _ => destruct b end;
+        try discriminate; injection Hf as <-; cbn; lia.
+    + unfold reported, shard_at in Hf. rewrite nth_overflow in Hf by (cbn; lia). cbn in Hf. discriminate.
+  - split; [|vm_compute; reflexivity].
+    right. intros [|[|[|k]]] Hk; vm_compute in Hk; try lia; (split; [vm_compute; reflexivity|now left]).
 Qed.
